@@ -377,6 +377,74 @@ fn shard(ctx: &mut ShardCtx, mode: &'static str, quick: u64, thorough: u64) {
         });
         ctx.search("history", strat, n / 16 + 1, &run);
     }
+    if mode == "c07" {
+        // key reuse: a transaction (session or batch) removes the owner of a unique key (DELETE, or UPDATE of the
+        // key column away) and writes the key again (INSERT, or UPDATE of another row onto it), ends either way,
+        // and afterwards every key ever used is offered again - each must be accepted exactly when it is free
+        let excluded: Vec<String> = ctx.excludes.keys().cloned().collect();
+        let strat = (
+            proptest::sample::subsequence((0u8..12).collect::<Vec<_>>(), 2..6),
+            any::<bool>(),
+            any::<bool>(),
+            prop::collection::vec((any::<u8>(), 0u8..3, 0u8..3, 0u8..4, 0u8..12, any::<bool>()), 1..4),
+            0u8..3,
+        )
+            .prop_map(move |(vals, pk, late_index, rounds, between)| {
+                let row = |k: u8, x: u8| vec![AVal::Pool(k), AVal::Pool(x), AVal::Pool(x), AVal::Pool(x), AVal::Pool(x)];
+                let ins = |k: u8, x: u8| AStmt::Insert { t: 0, rows: vec![row(k, x)], partial: false };
+                let eq = |k: u8| APred::Cmp { col: 0, op: 0, val: AVal::Pool(k) };
+                let declared = !late_index;
+                let mut steps = vec![Step::Auto(AStmt::Create { name: 0, cols: vec![ACol { ty: 0, not_null: false, default: None }, ACol { ty: 0, not_null: false, default: None }], pk: if declared && pk { Some(0) } else { None }, uniq: if declared && !pk { Some(0) } else { None } })];
+                for v in &vals {
+                    steps.push(Step::Auto(ins(*v, *v)));
+                }
+                if late_index {
+                    steps.push(Step::Auto(AStmt::CreateIndex { t: 0, col: 0 }));
+                }
+                for (pick, remove, rewrite, end, other, again_inside) in rounds {
+                    let k = vals[pick as usize % vals.len()];
+                    let mut body = vec![];
+                    body.push(match remove {
+                        0 => AStmt::Delete { t: 0, pred: eq(k) },
+                        1 => AStmt::Update { t: 0, col: 0, val: AVal::Pool(other), add: None, pred: eq(k) },
+                        _ => AStmt::Delete { t: 0, pred: APred::True },
+                    });
+                    body.push(match rewrite {
+                        0 => ins(k, other),
+                        1 => AStmt::Update { t: 0, col: 0, val: AVal::Pool(k), add: None, pred: eq(vals[(pick as usize + 1) % vals.len()]) },
+                        _ => AStmt::Insert { t: 0, rows: vec![row(other, other), row(k, other)], partial: false },
+                    });
+                    if again_inside {
+                        body.push(ins(k, k));
+                    }
+                    if end == 3 {
+                        steps.push(Step::Batch(body));
+                    } else {
+                        steps.push(Step::Begin(0));
+                        for b in body {
+                            steps.push(Step::Exec(0, b));
+                        }
+                        steps.push(match end {
+                            0 => Step::Commit(0),
+                            1 => Step::Rollback(0),
+                            _ => Step::DropSession(0),
+                        });
+                    }
+                    match between {
+                        1 => steps.push(Step::Vacuum),
+                        2 => steps.push(Step::Reopen(0)),
+                        _ => {}
+                    }
+                    steps.push(Step::Auto(ins(k, 11)));
+                    steps.push(Step::Auto(ins(other, 10)));
+                }
+                for v in &vals {
+                    steps.push(Step::Auto(ins(*v, 9)));
+                }
+                HCase { mode: "c07".into(), cfg: Cfg::default(), reopen_cfgs: vec![], steps, excluded: excluded.clone(), quiet: false }
+            });
+        ctx.search("history", strat, n / 8 + 1, &run);
+    }
     if mode == "c13" {
         // update/vacuum cycles on a few rows: contents stay right, storage stays bounded
         let excluded: Vec<String> = ctx.excludes.keys().cloned().collect();
